@@ -160,11 +160,7 @@ func c09StopOpts(cw *c09World) []c09StopOpt {
 		}
 	}
 	out = append(out, c09StopOpt{"system.stop", func(cw *c09World) *lfOp {
-		var all []string
-		for i := 0; i < n; i++ {
-			all = append(all, c09Name(i))
-		}
-		op := lfOpSystemStop(all...)
+		op := lfOpSystemStop(cw.lfWorld, c09Name(0))
 		inner := op.run
 		op.run = func(w *lfWorld) string { r := inner(w); cw.stopped = true; return r }
 		op.after = func(w *lfWorld, op *lfOp) []vsched.Violation {
@@ -199,6 +195,9 @@ func c09LogCheck(cw *c09World, evs []lfEv) []vsched.Violation {
 			for _, d := range cw.descendants(idx) {
 				if open[d] {
 					cause := "descendant-not-stopped"
+					if cw.restart {
+						cause = "descendant-not-stopped-after-restart"
+					}
 					if d == "x" {
 						cause = "racing-spawnchild"
 					} else if stopping[d] {
